@@ -215,8 +215,14 @@ func (w *World) appScore(p peer.ID) float64 {
 
 // Close shuts the scenario down; all goroutines must be able to exit.
 func (w *World) Close() {
+	// open every write gate and let pending announce retries (uncancellable sleeps of up to 1 s)
+	// run out, otherwise goroutines are left behind when the bubble ends
+	for _, f := range w.Fakes {
+		w.H.UngateWrites(f.ID())
+		w.H.ReleaseOpen(f.ID())
+	}
 	w.Stop()
-	hnet.Settle(10 * time.Millisecond)
+	hnet.Settle(1200 * time.Millisecond)
 }
 
 // Snap takes the normalised snapshot of the NUT.
